@@ -2,7 +2,7 @@
    Executable only.  Every list is length-prefixed, so the stream is self-delimiting. *)
 From Coq Require Import List Arith ZArith Bool.
 Import ListNotations.
-Require Import MD.Traj.Model.
+Require Import MD.Traj.Model MD.Traj.Extra.
 Open Scope Z_scope.
 
 Definition zn (n : nat) : Z := Z.of_nat n.
@@ -70,9 +70,10 @@ Fixpoint zlist_eqb (a b : list Z) : bool :=
   | _, _ => false
   end.
 
-(* all four variants; a variant whose run equals the repaired one is emitted as the single digit 0 *)
-Definition run_enc (v : variant) (sps : list spec) (ops : list op) : list Z :=
-  enc_world (run v (init_world sps) ops).
+(* a variant whose run equals the repaired one is emitted as the single digit 0.  Cases are histories over the
+   extended alphabet of MD.Traj.Extra (base operations are wrapped in XBase) *)
+Definition run_enc (v : variant) (xv : xvariant) (sps : list spec) (ops : list xop) : list Z :=
+  enc_world (xrun v xv (init_world sps) ops).
 
 (* the overlap decisions of every join(discard_overlapping_frames=True), in the state the join meets: per op
    [0] (not such a join), [2] (an operand without frames), or 1 :: n :: the n decisions.  The harness compares them
@@ -89,17 +90,46 @@ Definition op_plan (w : world) (o : op) : list Z :=
   | OMdJoin rs true => match get_all w rs with Some (t :: l) => enc t l | _ => [0] end
   | _ => [0]
   end.
-Fixpoint run_plans (v : variant) (w : world) (ops : list op) : list Z :=
+Definition xop_plan (w : world) (o : xop) : list Z := match o with XBase o => op_plan w o | _ => [0] end.
+Fixpoint run_plans (v : variant) (xv : xvariant) (w : world) (ops : list xop) : list Z :=
   match ops with
   | [] => []
-  | o :: rest => op_plan w o ++ run_plans v (fst (step v w o)) rest
+  | o :: rest => xop_plan w o ++ run_plans v xv (fst (xstep v xv w o)) rest
   end.
 
-Definition run_all (c : list spec * list op) : list Z :=
+(* which variant flags a history can observe at all: slice_indexes_traces only inside slice (t[key], slice(), and the
+   self[:] of a copying imaging call), aslice_inplace_resets only inside an in-place atom subset, join_keeps_traces only
+   inside a join *)
+Definition uses_slice (o : xop) : bool :=
+  match o with XBase (OSlice _ _ _) | XImage _ false => true | _ => false end.
+Definition uses_aslice_ip (o : xop) : bool :=
+  match o with XBase (OAtomSlice _ _ true) | XBase (ORemoveSolvent _ true) | XRestrictAtoms _ _ true => true | _ => false end.
+Definition uses_join (o : xop) : bool :=
+  match o with XBase (OJoin _ _ _ _) | XBase (OMdJoin _ _) => true | _ => false end.
+Definition var_index (v : variant) : Z :=
+  (if slice_indexes_traces v then 0 else 1) + (if aslice_inplace_resets v then 0 else 2) + (if join_keeps_traces v then 4 else 0).
+Definition var_eqb (a b : variant) : bool :=
+  Bool.eqb (slice_indexes_traces a) (slice_indexes_traces b) && Bool.eqb (aslice_inplace_resets a) (aslice_inplace_resets b)
+  && Bool.eqb (join_keeps_traces a) (join_keeps_traces b).
+
+(* variants 0-7: the three flags of MD.Traj.Model.variant (index = var_index) with the imaging methods repaired; 8, 9: the
+   imaging methods as found (they keep _rmsd_traces) on top of variants 0 and 4.  Per variant: [0] = the run equals the
+   repaired one; 2 :: k = the run is by construction the run of variant k (the flags in which they differ are never
+   looked at by this history), nothing recomputed; 1 :: encoding otherwise *)
+Definition run_all (c : list spec * list xop) : list Z :=
   let '(sps, ops) := c in
-  let base := run_enc v_fix sps ops in
-  let other (v : variant) := let e := run_enc v sps ops in if zlist_eqb e base then [0] else 1 :: e in
-  base ++ other (mkVar false true false) ++ other (mkVar true false false) ++ other v_cur
-  ++ other (mkVar true true true) ++ other (mkVar false true true) ++ other (mkVar true false true)
-  ++ other (mkVar false false true)
-  ++ run_plans v_fix (init_world sps) ops.
+  let base := run_enc v_fix xv_fix sps ops in
+  let us := existsb uses_slice ops in let ua := existsb uses_aslice_ip ops in let uj := existsb uses_join ops in
+  let eff (v : variant) := mkVar (slice_indexes_traces v || negb us) (aslice_inplace_resets v || negb ua) (join_keeps_traces v && uj) in
+  let other (v : variant) (xv : xvariant) :=
+    let e := run_enc v xv sps ops in if zlist_eqb e base then [0] else 1 :: e in
+  let other7 (v : variant) :=
+    let v' := eff v in
+    if var_eqb v' v then other v xv_fix else if var_eqb v' v_fix then [0] else [2; var_index v'] in
+  let other_img (v : variant) (k : Z) :=
+    if has_image ops then (if var_eqb (eff v) v then other v xv_cur else [2; k]) else [0] in
+  base ++ other7 (mkVar false true false) ++ other7 (mkVar true false false) ++ other7 v_cur
+  ++ other7 (mkVar true true true) ++ other7 (mkVar false true true) ++ other7 (mkVar true false true)
+  ++ other7 (mkVar false false true)
+  ++ other_img v_fix 8 ++ other_img (mkVar true true true) 8
+  ++ run_plans v_fix xv_fix (init_world sps) ops.
